@@ -149,8 +149,10 @@ func RuleAP1(c *Ctx) {
 			bParam = info.ObjectOf(nm)
 		}
 	}
-	var unescaped bool
-	var sObj types.Object
+	// the unescaped bytes: the variable (the parameter itself or a new local) that receives
+	// unescape(<raw parameter>); the text: a local defined as <that variable>.String()
+	var uObj, sObj types.Object
+	var unescapeCall *ast.CallExpr
 	for _, st := range fd.Body.List {
 		as, ok := st.(*ast.AssignStmt)
 		if !ok || len(as.Lhs) != 1 || len(as.Rhs) != 1 {
@@ -164,19 +166,37 @@ func RuleAP1(c *Ctx) {
 		if !ok {
 			continue
 		}
-		if info.ObjectOf(lid) == bParam && len(call.Args) == 1 {
+		if uObj == nil && len(call.Args) == 1 && c.P.Decl(Callee(info, call)) != nil {
 			if aid, ok := call.Args[0].(*ast.Ident); ok && info.ObjectOf(aid) == bParam {
-				unescaped = true // b = unescapeParameter(b)
+				uObj, unescapeCall = info.ObjectOf(lid), call // b = unescape(b)  /  v := unescape(b)
+				continue
 			}
 		}
-		if sel, ok := call.Fun.(*ast.SelectorExpr); ok && sel.Sel.Name == "String" && len(call.Args) == 0 {
-			if rid, ok := sel.X.(*ast.Ident); ok && info.ObjectOf(rid) == bParam && unescaped {
+		if sel, ok := call.Fun.(*ast.SelectorExpr); ok && sel.Sel.Name == "String" && len(call.Args) == 0 && uObj != nil {
+			if rid, ok := sel.X.(*ast.Ident); ok && info.ObjectOf(rid) == uObj {
 				sObj = info.ObjectOf(lid)
 			}
 		}
 	}
+	// once the unescaped value exists under a name of its own, the raw lexeme is not looked
+	// at again: a test made on the raw bytes sees the quotes
+	if uObj != nil && uObj != bParam {
+		k := 0
+		ast.Inspect(fd.Body, func(x ast.Node) bool {
+			id, ok := x.(*ast.Ident)
+			if !ok || info.ObjectOf(id) != bParam || id.Pos() <= unescapeCall.End() {
+				return true
+			}
+			k++
+			sc.Violation(fmt.Sprintf("raw-after-unescape#%d", k), c.P.Pos(id.Pos()), "the parameter as written (with its quotes) is used after the unescaped value was taken: a quoted spelling of a value that needs no quotes is judged differently from the bare one")
+			return true
+		})
+		if k == 0 {
+			sc.Holds("raw-after-unescape", c.P.Pos(fd.Pos()), "the raw lexeme is not used after unescaping")
+		}
+	}
 	if sObj == nil {
-		sc.Undecided("value", c.P.Pos(fd.Pos()), "cannot find  b = unescape(b); s := b.String()  at the top of AppendParameter")
+		sc.Undecided("value", c.P.Pos(fd.Pos()), "cannot find  <v> = unescape(b); s := <v>.String()  at the top of AppendParameter")
 		return
 	}
 	if !cf.AssignedOnce(sObj) {
